@@ -4,6 +4,10 @@
 //   aggr_plain     eps A                   coarsening::plain_aggregates
 //   aggr_pointwise eps b min_aggregate A   coarsening::pointwise_aggregates
 //   aggr_ptent     naggr id[]              coarsening::tentative_prolongation (no null space)
+//   rs_rowsum      eps do_trunc eps_trunc A P        V-grade: ruge_stuben<builtin<Q>>::transfer_operators; P is the
+//                                          implementation's output (written by generate), the Lean driver evaluates the
+//                                          verified predicate "zero-row-sum rows with a strong neighbour sum to one" on it
+//   ptent_ns       bs cols tol naggr id[] B[] P Bc[] V-grade: tentative_prolongation with a near-null space (QR in double)
 //   aggr_transfer  eps b A                 coarsening::aggregation<builtin<Q>>::transfer_operators
 //   sa_transfer    lvl eps b relax est A   coarsening::smoothed_aggregation<builtin<Q>>::transfer_operators,
 //                                          after `lvl` earlier calls on the same object (eps_strong halves per call)
@@ -20,6 +24,7 @@
 #include <amgcl/coarsening/tentative_prolongation.hpp>
 #include <amgcl/coarsening/aggregation.hpp>
 #include <amgcl/coarsening/smoothed_aggregation.hpp>
+#include <amgcl/coarsening/ruge_stuben.hpp>
 using namespace vh;
 namespace ac = amgcl::coarsening;
 typedef amgcl::backend::builtin<Q> Backend;
@@ -125,6 +130,35 @@ static Q gershgorin_scaled(const Mat &A) {
     Dense D = dense(A); Q rho(0);
     for (long i = 0; i < A.n; ++i) { Q s(0); for (long j = 0; j < A.m; ++j) s += qabs(D[i][j]); s = s * qabs(Q(1) / D[i][i]); if (rho < s) rho = s; }
     return rho;
+}
+
+// ------------------------------------------------------------------ V-grade helpers
+typedef ac::ruge_stuben<Backend> RS;
+static std::shared_ptr<Crs> rs_P(const Mat &A, float eps, bool tr, float et) {
+    RS::params prm; prm.eps_strong = eps; prm.do_trunc = tr; prm.eps_trunc = et;
+    RS C(prm); auto Ac = A.crs(); auto PR = C.transfer_operators(*Ac); return std::get<0>(PR);
+}
+// rows of A with zero row sum and a strong neighbour in the sense of ruge_stuben::connect
+static std::vector<long> rs_check_rows(const Mat &A, float eps) {
+    std::vector<long> rows; Q tiny = Q::frac(1, 1L << 51);
+    for (long i = 0; i < A.n; ++i) {
+        Q s(0), amin(0);
+        for (auto j = A.ptr[i]; j < A.ptr[i+1]; ++j) { s += A.val[j]; if (A.col[j] != i && A.val[j] < amin) amin = A.val[j]; }
+        if (!(s == 0) || qabs(amin) < tiny) continue;
+        Q thr = amin * Q(eps); bool hs = false;
+        for (auto j = A.ptr[i]; j < A.ptr[i+1]; ++j) if (A.col[j] != i && A.val[j] < thr) hs = true;
+        if (hs) rows.push_back(i);
+    }
+    return rows;
+}
+static Mat to_mat(const Crs &P) { Mat M; M.n = P.nrows; M.m = P.ncols; M.ptr.assign(P.ptr, P.ptr + P.nrows + 1); M.col.assign(P.col, P.col + P.ptr[P.nrows]); M.val.assign(P.val, P.val + P.ptr[P.nrows]); return M; }
+static bool same_mat(const Mat &a, const Mat &b) { if (a.n != b.n || a.m != b.m || a.ptr != b.ptr || a.col != b.col || a.val.size() != b.val.size()) return false; for (size_t k = 0; k < a.val.size(); ++k) if (!(a.val[k] == b.val[k])) return false; return true; }
+static bool within(const Q &tol, const Q &x) { return !(tol < x) && !(tol < -x); }
+struct NsOut { Mat P; std::vector<Q> Bc; };
+static NsOut ns_run(long bs, long cols, long naggr, const std::vector<ptrdiff_t> &id, const std::vector<Q> &B) {
+    ac::nullspace_params ns; ns.cols = (int)cols; ns.B.resize(B.size()); for (size_t k = 0; k < B.size(); ++k) ns.B[k] = B[k].v.get_d();
+    auto P = ac::tentative_prolongation<Crs>(id.size(), (size_t)naggr, id, ns, (int)bs);
+    NsOut o; o.P = to_mat(*P); for (double d : ns.B) o.Bc.push_back(Q(d)); return o;
 }
 
 // ------------------------------------------------------------------ execute
@@ -337,6 +371,42 @@ static Result execute(const Toks &t) {
         } catch (const amgcl::error::empty_level &) { r.out = "empty_level"; r.tag("empty_level"); }
           catch (const std::runtime_error &) { r.out = "precondition"; r.tag("precondition"); }
         r.tag("sa_b" + std::to_string(b)); if (est) r.tag("gershgorin"); if (lvl) r.tag("lvl>0"); tag_matrix(r, A);
+    } else if (op == "rs_rowsum") {
+        float eps = as_float(c.rat()); long tr = c.nat(); float et = as_float(c.rat()); auto A = c.mat(); auto P = c.mat(); c.expect_end(); check_square(A);
+        if (tr != 0 && tr != 1) throw bad_input("do_trunc");
+        // the P in the line must be what the real code returns (deterministic); the verdict is computed on it
+        try { auto Pr = rs_P(A, eps, tr != 0, et); if (!same_mat(to_mat(*Pr), P)) r.fail("P in the op line is not the implementation's output"); }
+        catch (const amgcl::error::empty_level &) { r.fail("P in the op line but the implementation throws empty_level"); }
+        auto rows = rs_check_rows(A, eps);
+        std::string why; auto Pc = P.crs(); bool ok = crs_wf(*Pc, why) && P.n == A.n;
+        if (ok) for (long i : rows) { Q s(0); for (auto j = P.ptr[i]; j < P.ptr[i+1]; ++j) s += P.val[j]; if (!(s == Q(1))) ok = false; }
+        r.out = (Line() << ok << (long)rows.size()).get();
+        if (!ok) r.fail("Ruge-Stuben: zero-row-sum row with a strong neighbour, but the row of P does not sum to 1");
+        r.nontrivial = !rows.empty(); r.tag(tr ? "rs_trunc" : "rs_notrunc"); tag_matrix(r, A);
+    } else if (op == "ptent_ns") {
+        long bs = c.nat(), cols = c.nat(); Q tol = c.rat(); long naggr = c.nat(); auto idv = c.natvec(); auto B = c.vec(); auto P = c.mat(); auto Bc = c.vec(); c.expect_end();
+        if (bs < 1 || cols < 1 || naggr < 0) throw bad_input("param");
+        std::string why; auto Pc = P.crs();
+        if (B.size() != idv.size() * (size_t)cols || !crs_wf(*Pc, why) || P.m != (naggr / bs) * cols || (long)Bc.size() != (naggr / bs) * cols * cols) throw bad_input("shape");
+        for (auto v : idv) if (v >= naggr) throw bad_input("id >= naggr");
+        std::vector<ptrdiff_t> id(idv.begin(), idv.end());
+        NsOut o = ns_run(bs, cols, naggr, id, B);
+        bool rep = same_mat(o.P, P) && o.Bc.size() == Bc.size(); for (size_t k = 0; rep && k < Bc.size(); ++k) if (!(o.Bc[k] == Bc[k])) rep = false;
+        if (!rep) r.fail("P / B_coarse in the op line are not the implementation's output");
+        long n = (long)id.size(); bool shape = P.n == n, repro = true, ortho = true;
+        for (long i = 0; shape && i < n; ++i) {
+            long k = P.ptr[i+1] - P.ptr[i];
+            if (id[i] < 0) shape = k == 0;
+            else { shape = k == cols; for (long jj = 0; shape && jj < cols; ++jj) shape = P.col[P.ptr[i] + jj] == (id[i] / bs) * cols + jj; }
+        }
+        for (long i = 0; i < n; ++i) if (id[i] >= 0) for (long k = 0; k < cols; ++k) {
+            Q s(0); for (auto j = P.ptr[i]; j < P.ptr[i+1]; ++j) { size_t bi = (size_t)P.col[j] * cols + k; s += P.val[j] * (bi < Bc.size() ? Bc[bi] : Q(0)); }
+            if (!within(tol, s - B[i * cols + k])) repro = false;
+        }
+        { Dense D = dense(P); for (long a = 0; a < P.m; ++a) for (long b2 = 0; b2 < P.m; ++b2) { Q g(0); for (long i = 0; i < P.n; ++i) g += D[i][a] * D[i][b2]; if (!within(tol, g - Q(a == b2 ? 1 : 0))) ortho = false; } }
+        r.out = (Line() << shape << repro << ortho).get();
+        if (!shape) r.fail("null-space P_tent: wrong shape"); if (!repro) r.fail("null-space: P_tent * B_coarse != B on aggregated rows (beyond tol)"); if (!ortho) r.fail("null-space: columns of P_tent not orthonormal (beyond tol)");
+        r.nontrivial = P.col.size() > 0; r.tag("ptent_ns_cols" + std::to_string(cols)); r.tag("ptent_ns_bs" + std::to_string(bs));
     } else {
         r.out = "bad-op";
     }
@@ -457,6 +527,33 @@ static void generate(Rng &rng, const Opts &o, std::vector<std::string> &lines) {
             long na = rng.range(0, 8); long len = rng.range(0, 30); Line l; l << "aggr_ptent" << na << len;
             for (long i = 0; i < len; ++i) l << (na > 0 && rng.coin(3, 4) ? rng.range(0, na - 1) : -rng.range(1, 6));
             lines.push_back(l.get());
+        }
+    }
+    // 3. V-grade: Ruge-Stuben row sums and the null-space branch; the implementation's output is part of the op line
+    long NV = o.cases > 0 ? o.cases / 4 + 2 : (th ? 1500 : 150);
+    for (long k = 0; k < NV; ++k) {
+        if (k % 3 != 2) {
+            // symmetric, zero row sums (M-matrix or with some positive off-diagonals), small integer weights
+            long n = rng.range(2, th ? 40 : 24); std::vector<std::map<long,Q>> rows(n); bool pos = rng.coin(1, 4);
+            for (long i = 0; i < n; ++i) for (int e = 0; e < 2; ++e) { long j = rng.range(0, n - 1); if (j == i) continue; Q v = (pos && rng.coin(1, 5)) ? Q(rng.range(1, 2)) : Q(-rng.range(1, 4)); rows[i][j] = v; rows[j][i] = v; }
+            for (long i = 0; i < n; ++i) { Q sum(0); for (auto &cv : rows[i]) if (cv.first != i) sum += cv.second; rows[i][i] = Q(0) - sum; if (rng.coin(1, 10)) rows[i][i] += Q(1); }
+            std::vector<std::vector<std::pair<long,Q>>> rr(n); for (long i = 0; i < n; ++i) for (auto &cv : rows[i]) rr[i].push_back({cv.first, cv.second});
+            Mat A = from_rows(n, n, rr);
+            static const float es[] = {0.25f, 0.5f, 0.125f}; static const float ets[] = {0.2f, 0.2f, 0.5f, 0.25f, 0.3f};
+            float eps = es[rng.range(0, 2)], et = ets[rng.range(0, 4)]; bool tr = rng.coin(2, 3);
+            try { auto P = rs_P(A, eps, tr, et); Line l; l << "rs_rowsum" << Q(eps) << (tr ? 1 : 0) << Q(et) << A; l << to_mat(*P); lines.push_back(l.get()); }
+            catch (const amgcl::error::empty_level &) {}
+        } else {
+            long bs = rng.coin(1, 3) ? 2 : 1, cols = rng.range(1, 3);
+            Mat A = bs == 1 ? random_square(rng, rng.range(2, 30)) : kron_eye(random_square(rng, rng.range(2, 12)), bs);
+            if (!rows_sorted(A)) continue;
+            ac::pointwise_aggregates::params ap; ap.eps_strong = 0.08f; ap.block_size = (unsigned)bs;
+            try {
+                auto Ac = A.crs(); ac::pointwise_aggregates ag(*Ac, ap, (unsigned)cols);
+                std::vector<Q> B(A.n * cols); for (long i = 0; i < A.n; ++i) for (long kk = 0; kk < cols; ++kk) B[i * cols + kk] = kk == 0 ? Q(1) : Q::frac(rng.range(-8, 8), 1L << rng.range(0, 2));
+                NsOut out = ns_run(bs, cols, (long)ag.count, ag.id, B);
+                Line l; l << "ptent_ns" << bs << cols << Q::frac(1, 1L << 28) << (long)ag.count; l << (size_t)ag.id.size(); for (auto v : ag.id) l << (long)v; l << B; l << out.P; l << out.Bc; lines.push_back(l.get());
+            } catch (const amgcl::error::empty_level &) {} catch (const std::runtime_error &) {}
         }
     }
     // malformed stream: both sides must answer bad-input
